@@ -5,8 +5,11 @@ cd /repo || exit 9
 git diff --quiet || { echo "/repo not clean"; exit 9; }
 git apply "$patch" || { echo "patch does not apply"; exit 9; }
 cd /verif
+[ -f evidence/$pid.json ] && cp evidence/$pid.json /tmp/seedtest.$$.ev
 ./check "$pid" "$@" > /tmp/seedtest.$$.log 2>&1
 rc=$?
+# the evidence file must describe the unchanged tree, not the seeded one
+[ -f /tmp/seedtest.$$.ev ] && mv /tmp/seedtest.$$.ev evidence/$pid.json
 grep -E "^(VIOLATION|UNDECIDED|CHECKER-ERROR|KNOWN)" /tmp/seedtest.$$.log | cut -c1-260 | head -8
 tail -1 /tmp/seedtest.$$.log | cut -c1-300
 rm -f /tmp/seedtest.$$.log
